@@ -177,11 +177,39 @@ def generate():
                                 rows.append((tp, ex, es, ca, q0, bare, items))
         finally:
             infmod.utils.create_calculator, infmod._check_hypotest_prerequisites = ocreate, ocheck
+        # ---- `_check_hypotest_prerequisites` (+ `utils.all_pois_floating`) over every POI position / fixed-flag pattern of a three-parameter
+        # model, and `hypotest` itself: the check runs before anything else and with the caller's flags (defaults: the model's suggestion)
+        prereq_rows = []
+        for poi in (None, 0, 1, 2):
+            for bits in range(8):
+                fixed = [bool(bits >> k & 1) for k in range(3)]
+                class PCfg:
+                    poi_index = poi
+                    def suggested_init(self): return [1.0, 1.0, 1.0]
+                    def suggested_bounds(self): return [(0.0, 10.0)] * 3
+                    def suggested_fixed(self): return list(fixed)
+                class PPdf: config = PCfg()
+                outs = []
+                for explicit in (True, False):       # flags passed by the caller / taken from the model's suggestion inside hypotest
+                    try:
+                        if explicit: ocheck(PPdf(), [1.0], [1.0] * 3, [(0.0, 10.0)] * 3, fixed)
+                        else:
+                            infmod.utils.create_calculator = lambda *a, **k: FakeCalc()
+                            try: infmod.hypotest(1.0, [1.0], PPdf())
+                            finally: infmod.utils.create_calculator = ocreate
+                        outs.append('ok')
+                    except Exception as e:  # noqa
+                        outs.append(type(e).__name__)
+                assert outs[0] == outs[1], (poi, fixed, outs)
+                prereq_rows.append((poi, fixed, outs[0]))
         B = lambda b: 'true' if b else 'false'
         L = lambda it: '[' + ', '.join('[' + ', '.join(f'"{n}"' for n in i) + ']' for i in it) + ']'
         out.append(f'/-- `infer/__init__.py::hypotest` (source sha256 {digest(infmod.hypotest)}…): the returned pieces, each as the list of the calculator quantities it\nholds, for every combination of the four `return_*` flags and q0 / not q0 (obtained by running `hypotest` with a symbolic calculator) -/')
         out.append('def hypotest_returns (tailProbs expected expectedSet calculator isQ0 : Bool) : List (List String) :=\n  match tailProbs, expected, expectedSet, calculator, isQ0 with\n'
                    + '\n'.join(f'  | {B(tp)}, {B(ex)}, {B(es)}, {B(ca)}, {B(q0)} => {L(items)}' for tp, ex, es, ca, q0, bare, items in rows) + '\n')
+        out.append(f'/-- `_check_hypotest_prerequisites` (source sha256 {digest(ocheck)}…) for a three-parameter model: the exception class raised (`"ok"` = none), the same\nwhether the fixed flags are passed by the caller or come from the model\'s suggestion inside `hypotest` -/')
+        out.append('def hypotest_prereq (poi : Option Nat) (f0 f1 f2 : Bool) : String :=\n  match poi, f0, f1, f2 with\n'
+                   + '\n'.join(f'  | {"none" if poi is None else "some " + str(poi)}, {B(fx[0])}, {B(fx[1])}, {B(fx[2])} => "{o}"' for poi, fx, o in prereq_rows) + '\n  | _, _, _, _ => "out-of-range"\n')
         out.append('/-- is the result a bare value (not a tuple)? -/')
         out.append('def hypotest_bare (tailProbs expected expectedSet calculator isQ0 : Bool) : Bool :=\n  match tailProbs, expected, expectedSet, calculator, isQ0 with\n'
                    + '\n'.join(f'  | {B(tp)}, {B(ex)}, {B(es)}, {B(ca)}, {B(q0)} => {B(bare)}' for tp, ex, es, ca, q0, bare, items in rows) + '\n')
